@@ -24,7 +24,7 @@ from ..refpeg import RefPeg
 from .. import corpus, pegcheck, modelcmp
 from ..pegcheck import Formulas, real_load
 from . import c01
-from ..gram import S, Asg, Rule, Ref, Str, Sup
+from ..gram import S, Asg, Rule, Ref, Str, Sup, Opt
 
 PROP = 'C22'
 WS_ALL = [' ', '\t', '\n', '\r']
@@ -57,6 +57,14 @@ EXTRA = [
               Rule('P', S(Str('p'), Asg('n', '=', Ref('INT')), Str(';')), ws='\r\t ')], tags=['ws']),
     corpus.G('global-ws-comment', [Rule('M', S(Str('a'), Asg('xs', '+=', Ref('INT')))), corpus.COMMENT_BLOCK],
              tags=['ws'], ws=' \n'),
+    # an escape next to other characters in the ws modifier: all of them are whitespace in the rule
+    corpus.G('ws-escape-and-others',
+             [Rule('M', S(Asg('ps', '+=', Ref('P')), Str('e'))),
+              Rule('P', S(Str('p'), Asg('n', '=', Ref('INT')), Str(';')), ws='\t ,')], tags=['ws']),
+    # the empty set given for the whole grammar: nothing is skipped (one rule has its own set)
+    corpus.G('global-ws-empty', [Rule('M', S(Str('a'), Asg('xs', '+=', Ref('INT'), sep=Str(',')), Opt(Asg('p', '=', Ref('P'))))),
+                                 Rule('P', S(Str('p'), Asg('n', '=', Ref('INT'))), ws=' ')],
+             tags=['ws'], ws=''),
 ]
 
 
@@ -138,7 +146,7 @@ def obligation(item):
             act = active_chars(st)
             for q in sorted({p0, start}):
                 res['boundaries'] += 1
-                cands = [(w, True) for w in act if w in WS_ALL]
+                cands = [(w, True) for w in act]     # every character of the active set, not only blanks
                 if act:
                     cands += [(cm, True) for cm in comments
                               if not cm.endswith('\n') or '\n' in act]
